@@ -355,6 +355,16 @@ func Special(a int, b int, s string, xs []int) int {
 		return specialHeader() + fmt.Sprintf("func Special(a int, b int, s string, xs []int) int {\n\tlater := s %s \"m\"\n\tt := a\n\tif b > %d {\n\t\tt += b\n\t}\n\tif later {\n\t\treturn t * 2\n\t}\n\treturn t + 1\n}\n", op, k1)
 	}
 	out = append(out, special{Name: "held-string-comparison-opposite-test-same-arms", Family: "exchanged-branches", P: heldStr(">"), Q: heldStr("<=")})
+	// rune constants that are not valid code points (-1 as "no rune", surrogates): they are numbers like any
+	// other, two different ones are two different constants
+	runeK := func(k string) string {
+		return specialHeader() + "func Special(a int, b int, s string, xs []int) int {\n\tr := rune(a)\n\tif r == " + k + " {\n\t\treturn b + 1\n\t}\n\treturn len(s)\n}\n"
+	}
+	out = append(out, special{Name: "invalid-rune-constant-changed", Family: "constant-type", P: runeK("-1"), Q: runeK("-3")})
+	runeS := func(k string) string {
+		return specialHeader() + "func Special(a int, b int, s string, xs []int) int {\n\tvar lim rune = " + k + "\n\tn := 0\n\tfor _, r := range s + string(rune(0xDBFF+a)) {\n\t\tif r >= lim {\n\t\t\tn++\n\t\t}\n\t}\n\tif rune(a+0xD900) >= lim {\n\t\tn += 10\n\t}\n\treturn n\n}\n"
+	}
+	out = append(out, special{Name: "surrogate-rune-constant-changed", Family: "constant-type", P: runeS("0xD800"), Q: runeS("0xDC00")})
 	// a side effect moved to the other arm: same call, same operands, other branch
 	eff := func(other bool) string {
 		arms := "\tif a > b {\n\t\tnote(a)\n\t}\n"
